@@ -54,9 +54,9 @@ def make_sigs(t, N, Loh=4, rich=False, junk=True, gpg_only=False):
     return t.sdict('sigs', slots), real
 
 
-def build(eng, ns, N=2, M=2, Loh=4, rich=False, junk=True, any_args=False, thr_kinds=('int', 'bool', 'float'), modes=(True, False)):
+def build(eng, ns, N=2, M=2, Loh=4, rich=False, junk=True, any_args=False, thr_kinds=('int', 'bool', 'float'), modes=(True, False), payload=None):
     t = T(eng, ns=ns)
-    payload = t.payload('payload', dict)
+    payload = payload if payload is not None else t.payload('payload', dict)
     sigs, real = make_sigs(t, N, Loh, rich, junk)
     env = {'signatures': sigs, 'signed': payload}
     signable = env
@@ -167,7 +167,7 @@ def bytes_desc(m, b):
     if b.kind == 'hex':
         return {'hexstr': conc(m, b.src)}
     if b.kind == 'canon':
-        return {'canon': to_wire(conc(m, b.value))}
+        return {'canon': to_wire(conc(m, b.snapshot))}
     if b.kind == 'packed':
         return {'pack': [b.fmt, m.eval(b.e, model_completion=True).as_long()]}
     if b.kind == 'digest':
